@@ -155,6 +155,23 @@ func parserHelperRules(c *Ctx, prop string) {
 					if len(p.Calls("btrim")) != 2 {
 						problems = append(problems, "name and value are not both trimmed")
 					}
+					// the name is trimmed first and canonicalised afterwards: the first letter the
+					// canonical form capitalises is the first letter of the trimmed name
+					it, ic := -1, -1
+					for i, e := range p.Effects {
+						if e.Kind != "call" {
+							continue
+						}
+						if e.Name == "btrim" && it < 0 && len(e.Args) == 1 && sliceDesc(e.Args[0]) == fmt.Sprintf("[0:%d]", colon) {
+							it = i
+						}
+						if e.Name == "canonicalize" && ic < 0 {
+							ic = i
+						}
+					}
+					if it < 0 || ic < it {
+						problems = append(problems, "the header name is canonicalised before it is trimmed: a blank in front of the name moves the letter that gets capitalised ("+desc+")")
+					}
 				}
 				if got != want {
 					problems = append(problems, fmt.Sprintf("%s: (key,value,ok) = %s, want %s", desc, got, want))
